@@ -239,6 +239,16 @@ def run_shard(spec, acc, ctx):
             msg = rng.randbytes(rng.choice([rng.randint(0, 200), 0, 1, 64, 200]))
             n = rng.choice([rng.randint(1, 200), 1, 15, 16, 19, 20, 21, 31, 32, 33, 63, 64, 65, 200])
             check_prf(acc, prf_mod, rng, digest, key, msg, n, declared=rng.random() < 0.5)
+            if i % 7 == 3 and len(msg) >= 2:
+                # the same bytes split differently between key and message (with and without a separator byte that a
+                # hand-built lookup key might use): P_hash(k, a.s.b) and P_hash(k.s.a, b) are unrelated values
+                j = rng.randrange(len(msg))
+                sep = rng.choice([b"", b"", b"|", b"\x00", b":", b",", b"/", b" ", b"\n", b"\xff", b"-", b"_"])
+                a, b = msg[:j], msg[j:]
+                acc.count("prf.boundary_shift_pairs")
+                check_prf(acc, prf_mod, rng, digest, key, a + sep + b, n, declared=False)
+                check_prf(acc, prf_mod, rng, digest, key + sep + a, b, n, declared=False)
+                check_hash(acc, hash_mod, rng, rng.choice(HASH_DIGESTS), a + sep + b, n)
             hd = rng.choice(HASH_DIGESTS)
             check_hash(acc, hash_mod, rng, hd, msg, n)
             # distinctness: fixed key length, n >= 16, near-duplicate inputs
